@@ -102,8 +102,7 @@ class IndiMessage:
             res["_value"] = str(self.value)
 
         if hasattr(self, "children"):
-            for child in self.children:
-                res["_children"] = child.to_dict()
+            res["_children"] = [child.to_dict() for child in self.children]
 
         return res
 
